@@ -12,7 +12,7 @@ from harness.framework import Check
 
 PROP = "C01"
 FLAGS = ["q_py_start_from_code", "q_py_table_from_code", "q_ts_elseif_nests", "q_rs_elseif_nests", "q_rs_table_from_code"]
-LANG_FLAGS = {"Py": FLAGS[0:2], "Ts": FLAGS[2:3], "Rs": FLAGS[3:5]}
+LANG_FLAGS = {"Py": FLAGS[0:1], "Ts": [], "Rs": []}  # flags still claimed for the current tree
 HEADER = "From TL Require Import Lib.Base Model.Skel Model.Nesting Model.NestingRun Actual.NestingActual.\n"
 MSG_RE = re.compile(r"^Function '(.*)' has excessive nesting depth \((\d+)\)$", re.S)
 
